@@ -66,7 +66,11 @@ class IntervalSegmenter(_PanelToPanelTransformer):
                 raise ValueError(
                     "The number of intervals must be half the number of time points"
                 )
-            self.intervals_ = np.array_split(self._time_index, self.intervals)
+            # store (start, end) pairs with exclusive end, as for array `intervals`
+            self.intervals_ = [
+                (piece[0], piece[-1] + 1)
+                for piece in np.array_split(self._time_index, self.intervals)
+            ]
 
         else:
             raise ValueError(
